@@ -1,7 +1,7 @@
 // C12 probe: concrete inputs for the defects found while verifying lib/analysis/{reaching_definitions,
 // use_def,def_use}.rs.  Prints the reaching definitions (state AFTER each location), the use-def and the
 // def-use chains, and compares them with what the property demands.
-use falcon::analysis::{def_use, reaching_definitions, use_def};
+use falcon::analysis::{dead_code_elimination, def_use, reaching_definitions, use_def};
 use falcon::il::*;
 use std::panic;
 
@@ -181,4 +181,30 @@ fn main() {
     cfg.set_entry(b0).unwrap();
     cfg.set_exit(b2).unwrap();
     show("  expected: use_def[1:00] = {0:00, 1:00} (through the back edge); use_def[2:00] = {1:00}", &Function::new(0, cfg));
+
+    // (ix) consequence for a client: dead_code_elimination consults def_use
+    println!("(ix) dead_code_elimination of a=1; b=2; c=a+b; a=0; b=0   (a=1 and b=2 are used by c=a+b and must survive)");
+    let mut cfg = ControlFlowGraph::new();
+    let b0 = {
+        let b = cfg.new_block().unwrap();
+        b.assign(scalar("a", 32), expr_const(1, 32));
+        b.assign(scalar("b", 32), expr_const(2, 32));
+        b.assign(scalar("c", 32), Expression::add(expr_scalar("a", 32), expr_scalar("b", 32)).unwrap());
+        b.assign(scalar("a", 32), expr_const(0, 32));
+        b.assign(scalar("b", 32), expr_const(0, 32));
+        b.index()
+    };
+    cfg.set_entry(b0).unwrap();
+    cfg.set_exit(b0).unwrap();
+    let f = Function::new(0, cfg);
+    match dead_code_elimination(&f) {
+        Ok(g) => {
+            for block in g.blocks() {
+                for ins in block.instructions() {
+                    println!("      {:X}:{:02X}  {}", block.index(), ins.index(), ins.operation());
+                }
+            }
+        }
+        Err(e) => println!("    Err({})", e),
+    }
 }
